@@ -39,7 +39,13 @@ TimeRangeCases ==
                 THEN { Base("between " \o HM(p[1], p[2]) \o " and " \o HM(p[3], p[4]), "timerange", <<V2("*", "timerange", TimeStr(p[1], p[2], 0), TimeStr(p[3], p[4], 0))>>, "between-and times 24h") }
                 ELSE {})
           : p \in TimePairs }
-Cases == DurCases \cup DateRangeCases \cup TimeRangeCases
+(* date-time ranges <<day1, h1, m1, day2, h2, m2>> in ISO date + 24-hour form (hours >= 13) *)
+CONSTANT DateTimePairs
+DateTimeRangeCases ==
+  { Base("from " \o OrdStr(p[1]) \o " " \o HM(p[2], p[3]) \o " to " \o OrdStr(p[4]) \o " " \o HM(p[5], p[6]), "datetimerange",
+         <<V2("*", "datetimerange", OrdStr(p[1]) \o " " \o TimeStr(p[2], p[3], 0), OrdStr(p[4]) \o " " \o TimeStr(p[5], p[6], 0))>>, "from-to datetimes")
+    : p \in DateTimePairs }
+Cases == DurCases \cup DateRangeCases \cup TimeRangeCases \cup DateTimeRangeCases
 
 (* ------------------------------------------------------------------ (3) TripleConsistent *)
 RECURSIVE SplitAt(_, _, _, _)
